@@ -35,6 +35,7 @@ int jobloop_main(int argc, char** argv, F run_job)
             dup2(dn, 1);  // library code prints to stdout in places
             alarm(timeout);
             struct rlimit rl{(rlim_t)job.value("stack_mb", 64) * 1024 * 1024, (rlim_t)job.value("stack_mb", 64) * 1024 * 1024};
+            setrlimit(RLIMIT_STACK, &rl);
             json res;
             try { res = run_job(job); } catch (const std::exception& e) { res = json{{"id", job["id"]}, {"outcome", "harness-error"}, {"what", e.what()}}; }
             std::ofstream r(resfile);
